@@ -1,3 +1,4 @@
+import MockeryLemmas.Origin
 import MockeryModel.Gen.Emit
 import MockeryLemmas.Types
 import MockeryLemmas.Alloc
@@ -51,6 +52,19 @@ registry (the import table of an output file is such a history) -/
 theorem import_qualifiers_distinct {r : Registry} (h : C15.Reachable r) (p q : Pkg) (hp : p ∈ r.imports)
     (hq : q ∈ r.imports) (hpq : p.qualifier = q.qualifier) : p = q :=
   C15.distinct_paths_distinct_qualifiers h p hp q hq hpq
+
+/-- **no import without a reason**: every package in a file's import registry is mentioned by the type
+(or configured replacement) of some parameter, result or type-parameter constraint of some mocked
+interface of that file -/
+theorem no_import_without_reason (f : FileIn) (x : String) (h : x ∈ (fileData f).1.paths) :
+    ∃ i ∈ f.ifaces, x ∈ ifaceOrigin i := by
+  simp only [fileData] at h
+  rcases foldl_grow (fun (acc : Registry × List IfaceOut) => acc.1.paths) ifaceOrigin
+      (fun acc i => ((ifaceData acc.1 i).1, acc.2 ++ [(ifaceData acc.1 i).2]))
+      (fun s a x hx => ifaceData_origin s.1 a x hx) f.ifaces _ x h with h1 | h1
+  · simp [Registry.paths] at h1
+  · exact h1
+
 
 /-! ## scopes of the emitted functions -/
 
